@@ -166,21 +166,25 @@ Proof.
   exists snd, i, votes, vals. done.
 Qed.
 
-(* prices change only by oracle updates (creating a pair adds a pair without a price) *)
+(* prices change only by oracle updates (creating a pair adds a pair without a price; the oracle
+   module's own removal of the pair deletes the pair together with its quote) *)
 Lemma c15_price_changes_only_by s o cp :
   is_Some (quotes s !! cp) → quotes (step s o).1 !! cp ≠ quotes s !! cp →
+  o = ORemovePair cp ∨
   ∃ blk sender height commit, o = OUpdateOracle blk sender height commit ∧
                               update_oracle s blk sender height commit = Some (step s o).1.
 Proof.
   intros Hex Hne. unfold step in *. destruct (handle s o) as [s'|] eqn:Hh; [|done]. cbn in *.
-  destruct o as [blk sender height commit|client height entries|l|i|cp']; cbn in Hh.
-  - eauto 10.
+  destruct o as [blk sender height commit|client height entries|l|i|cp'|cp']; cbn in Hh.
+  - right. eauto 10.
   - apply update_host_Some in Hh as [->|(i & _ & _ & _ & _ & ->)]; done.
   - by injection Hh as <-.
   - by injection Hh as <-.
   - apply create_pair_Some in Hh as [Hn ->]. cbn in Hne.
     destruct (decide (cp' = cp)) as [->|]; [rewrite Hn in Hex; by destruct Hex|].
     by rewrite lookup_insert_ne in Hne.
+  - apply remove_pair_Some in Hh as [_ ->]. cbn in Hne.
+    destruct (decide (cp' = cp)) as [->|]; [by left|]. by rewrite lookup_delete_ne in Hne.
 Qed.
 
 (* ---------------------------------------------------------------------------------------- *)
@@ -411,30 +415,46 @@ Proof.
 Qed.
 
 Lemma step_ts s o cp q :
+  o ≠ ORemovePair cp →
   quotes s !! cp = Some (Some q) → ∃ q', quotes (step s o).1 !! cp = Some (Some q') ∧ ts_advanced q q'.
 Proof.
-  intros Hq. unfold step. destruct (handle s o) as [s'|] eqn:Hh; cbn; [|exists q; split; [done|by left]].
-  destruct o as [blk sender height commit|client height entries|l|i|cp']; cbn in Hh.
+  intros Hrm Hq. unfold step. destruct (handle s o) as [s'|] eqn:Hh; cbn; [|exists q; split; [done|by left]].
+  destruct o as [blk sender height commit|client height entries|l|i|cp'|cp']; cbn in Hh.
   - eauto using update_oracle_ts.
   - apply update_host_Some in Hh as [->|(i & _ & _ & _ & _ & ->)]; exists q; (split; [done|by left]).
   - injection Hh as <-. exists q. split; [done|by left].
   - injection Hh as <-. exists q. split; [done|by left].
   - apply create_pair_Some in Hh as [Hn ->]. cbn. exists q. split; [|by left].
     rewrite lookup_insert_ne; [done|]. intros ->. congruence.
+  - apply remove_pair_Some in Hh as [_ ->]. cbn. exists q. split; [|by left].
+    rewrite lookup_delete_ne; [done|]. intros ->. done.
 Qed.
 
 Lemma run_ts h s cp q :
+  ORemovePair cp ∉ h →
   quotes s !! cp = Some (Some q) → ∃ q', quotes (run s h) !! cp = Some (Some q') ∧ ts_advanced q q'.
 Proof.
-  revert s q. induction h as [|o h IH]; intros s q Hq; [exists q; split; [done|by left]|].
-  rewrite run_cons. destruct (step_ts s o cp q Hq) as (q1 & H1 & Ha1).
-  destruct (IH _ _ H1) as (q2 & H2 & Ha2). exists q2. split; [done|]. eauto using ts_advanced_trans.
+  revert s q. induction h as [|o h IH]; intros s q Hrm Hq; [exists q; split; [done|by left]|].
+  apply not_elem_of_cons in Hrm as [Ho Hrm].
+  rewrite run_cons. destruct (step_ts s o cp q ltac:(done) Hq) as (q1 & H1 & Ha1).
+  destruct (IH _ _ Hrm H1) as (q2 & H2 & Ha2). exists q2. split; [done|]. eauto using ts_advanced_trans.
 Qed.
 
+(* per pair, over every stretch of history in which the oracle module does not remove the pair *)
 Lemma c15_timestamp_monotone s h1 h2 cp q1 :
+  ORemovePair cp ∉ h2 →
   quotes (run s h1) !! cp = Some (Some q1) →
   ∃ q2, quotes (run s (h1 ++ h2)) !! cp = Some (Some q2) ∧ (q2 = q1 ∨ q_ts q1 < q_ts q2).
-Proof. intros H. rewrite run_app. by apply run_ts. Qed.
+Proof. intros Hrm H. rewrite run_app. by apply run_ts. Qed.
+
+(* removal and re-creation: the pair comes back without a quote (its timestamp history restarts) *)
+Lemma c15_remove_create s cp s1 s2 :
+  remove_pair s cp = Some s1 → create_pair s1 cp = Some s2 →
+  quotes s2 !! cp = Some None ∧ ∀ cp', cp' ≠ cp → quotes s2 !! cp' = quotes s !! cp'.
+Proof.
+  intros [_ ->]%remove_pair_Some [_ ->]%create_pair_Some. cbn. split; [by rewrite lookup_insert|].
+  intros cp' Hne. by rewrite lookup_insert_ne, lookup_delete_ne.
+Qed.
 
 (* a replay (same timestamp) or a rollback (older timestamp) of any pair it would write rejects the update *)
 Lemma c15_replay_rejected s blk sender height votes tsp cp p q :
@@ -486,13 +506,14 @@ Definition height_pos (s : ostate) : Prop := ∀ hh, hheight s = Some hh → 0 <
 Lemma step_height_pos s o : height_pos s → height_pos (step s o).1.
 Proof.
   intros Hp. unfold step. destruct (handle s o) as [s'|] eqn:Hh; [|done]. cbn.
-  destruct o as [blk sender height commit|client height entries|l|i|cp']; cbn in Hh.
+  destruct o as [blk sender height commit|client height entries|l|i|cp'|cp']; cbn in Hh.
   - apply update_oracle_frame in Hh as (_ & _ & Hh & _). unfold height_pos. by rewrite Hh.
   - apply update_host_Some in Hh as [->|(i & _ & _ & _ & Hlt & ->)]; [done|].
     intros hh [= <-]. destruct (hheight s) as [h0|] eqn:E; cbn in Hlt; [|done]. specialize (Hp h0 E). lia.
   - by injection Hh as <-.
   - by injection Hh as <-.
   - apply create_pair_Some in Hh as [_ ->]. done.
+  - apply remove_pair_Some in Hh as [_ ->]. done.
 Qed.
 
 Lemma run_height_pos h s : height_pos s → height_pos (run s h).
@@ -522,13 +543,14 @@ Lemma c15_set_replacement s o :
     hheight (step s o).1 = Some height ∧ hset (step s o).1 = build_set entries.
 Proof.
   intros Hne. unfold step in *. destruct (handle s o) as [s'|] eqn:Hh; cbn in *; [|by destruct Hne].
-  destruct o as [blk sender height commit|client height entries|l|i|cp']; cbn in Hh.
+  destruct o as [blk sender height commit|client height entries|l|i|cp'|cp']; cbn in Hh.
   - apply update_oracle_frame in Hh as (_ & _ & H1 & H2). destruct Hne; congruence.
   - apply update_host_Some in Hh as [->|(i & Hi & Hc & Hc0 & Hlt & ->)]; [by destruct Hne|].
     exists client, height, entries, i. done.
   - injection Hh as <-. by destruct Hne.
   - injection Hh as <-. by destruct Hne.
   - apply create_pair_Some in Hh as [_ ->]. by destruct Hne.
+  - apply remove_pair_Some in Hh as [_ ->]. by destruct Hne.
 Qed.
 
 (* the recorded height never decreases along a history, and a changed set has a higher height *)
